@@ -138,8 +138,33 @@ def runCx (c : Case) : Res :=
       | some n => if n != K.verts.length then bad := s!"number_of_vertices()={n} but {K.verts.length} vertices are stored" :: bad
       | none => pure ()
       match c.ob "stats" with
-      | some (ins :: _) =>
+      | some (ins :: rest) =>
         if ins.toNat? != some K.verts.length then bad := s!"statistics report inserted={ins} but {K.verts.length} vertices are present" :: bad
+        -- every input vertex is accounted for: present, a duplicate of a present vertex (within the
+        -- dedup tolerance of the options or the 1e-10 insertion tolerance), or covered by the
+        -- skipped counters; a vertex that vanished otherwise was dropped silently
+        let ins2 : List (Nat × DPt) := (c.recsOf "in").filterMap (fun r => match r with
+          | _ :: idS :: rest0 =>
+            let (coords, _) := splitAt1 rest0 "d"
+            match idS.toNat?, parsePt coords with
+            | some i, some p => some (i, p)
+            | _, _ => none
+          | _ => none)
+        let dtol : Q := match (parseF64 (c.arg "dedup_tol")).bind F64.dy? with
+          | some t => let q := Q.ofDy t; if Q.lt q ⟨1, 10 ^ 10⟩ then ⟨1, 10 ^ 10⟩ else q
+          | none => ⟨1, 10 ^ 10⟩
+        let tol2 := dtol * dtol * ⟨1000001, 1000000⟩
+        let present : List DPt := K.verts.filterMap (·.pt)
+        let missing := ins2.filter (fun (i, _) => !(K.verts.any (·.id == i)))
+        let d2 (a b : DPt) : Q := (a.zip b).foldl (fun acc (x, y) => let e := Q.ofDy x - Q.ofDy y; acc + e * e) (Q.ofInt 0)
+        -- the documented perturbation moves stored points by ~1e-8: compare with the INPUT positions of kept vertices
+        let keptIn : List DPt := ins2.filterMap (fun (i, p) => if K.verts.any (·.id == i) then some p else none)
+        let unexplained := missing.filter (fun (_, p) => !((present ++ keptIn).any (fun u => Q.le (d2 p u) tol2)))
+        match ins.toNat?, (rest.getD 0 "").toNat?, (rest.getD 1 "").toNat? with
+        | some _, some b, some d =>
+          if unexplained.length > b + d then
+            bad := s!"{unexplained.length} input vertices (e.g. id {(unexplained.map (·.1)).take 3}) are neither present, nor duplicates of a present vertex, nor covered by the skipped counters (duplicate={b}, degenerate={d})" :: bad
+        | _, _, _ => pure ()
       | _ => pure ()
       if flag "gpdt" then
         -- general position: the result must be THE Delaunay triangulation.  (If some exact
